@@ -10,9 +10,10 @@ From Soy Require Import Spec.Text.
 From Soy Require Import Proofs.RawTextProofs.
 From Soy Require Import Model.Ast Model.Token Model.Lexer Model.Parser Generated.Tables
   Proofs.LexerProofs Proofs.LexBodyText Proofs.LexBodyTop Proofs.ParseBodyText Proofs.BodyTextMain.
-From Soy Require Import Spec.TextBody Proofs.LexTokens Proofs.LexPrintTop Proofs.LexBodyMain Proofs.BodyCmdMain.
-From Soy Require Import Spec.TextMix Proofs.BodyMixMain.
+From Soy Require Import Spec.TextBody Proofs.LexTokens Proofs.LexPrintTop Proofs.LexBodyLit Proofs.LexBodyMain Proofs.BodyCmdMain.
+From Soy Require Import Spec.TextMix Proofs.BodyMixMain Proofs.LexBodySeg Proofs.LexBodyMix Proofs.ExprParserRules Proofs.ParseBodyText Proofs.BodyStretchAny.
 From Soy Require Import Spec.TextTemplate Proofs.ParserProofs Proofs.BodyTemplateMain.
+From Soy Require Import Model.AstPrint Spec.ExprSyntax Spec.TextTags Proofs.LexPrintMain Proofs.LexPrintCmd Proofs.CmdParserStripDefs Proofs.LexBodyTags Proofs.BodyTagsMain.
 Open Scope N_scope.
 
 (* The loop of parse/rawtext.go returns exactly the Spec's normalisation, under
@@ -155,7 +156,8 @@ Print Assumptions C15_slashes_after_nonspace.
    concatenated, are  normalize T0 ++ char(c1) ++ normalize T1 ++ ... : each stretch normalised as a whole with
    no flagged end, each command giving exactly its character ({nil}: nothing), each literal block its text s
    verbatim (lexLiteral with strings.Index; no normalisation).  Stretches may be empty.
-   Comments inside such a body: C15_body_text_spec below.  NOT covered: "{literal }" with spaces. *)
+   Comments inside such a body: C15_body_text_spec below.  "{literal }" written with blanks before the brace is
+   covered (cmd_ok: lit_name_sp; C15_literal_blanks_exact). *)
 Theorem C15_body_special_chars_spec : forall inlen lexq unq T0 rest,
   stretch_ok true T0 -> Forall seg_ok rest ->
   exists items pos nodes st,
@@ -196,12 +198,42 @@ Proof.
   intros inlen lexq unq s Hcl.
   destruct (C15_body_special_chars_spec inlen lexq unq [] [((lit_name s, s), [])]) as (items & pos & nodes & st & A & B & C & D).
   - split; [constructor|reflexivity].
-  - constructor; [|constructor]. split; [right; split; [reflexivity|exact Hcl]|]. split; [constructor|reflexivity].
+  - constructor; [|constructor]. split; [apply cmd_ok_lit; exact Hcl|]. split; [constructor|reflexivity].
   - assert (E : body_src [] [((lit_name s, s), [])] = [123] ++ lit_name s ++ [125]) by reflexivity. rewrite E in A.
     exists items, pos, nodes, st. split; [exact A|]. split; [exact B|]. split; [exact C|]. rewrite D. unfold body_out. cbn [rest_out].
     change (normalize false false []) with (@nil N). cbn [app]. apply app_nil_r.
 Qed.
 Print Assumptions C15_literal_exact.
+
+(* the opening tag written with blanks before its brace -- {literal  }s{/literal}, spaces and tabs (lexLiteral skips
+   them; the "}" item then carries them in its text) -- is the same block: cmd_ok admits it everywhere a literal
+   block may stand, in all the template-level theorems of this file *)
+Theorem C15_literal_blanks_exact : forall inlen lexq unq sp s, Forall lit_blank sp -> lit_closed s ->
+  exists items pos nodes st,
+    lex_items is_letter_tbl is_digit_tbl (lex_budget ([123] ++ lit_name_sp sp s ++ [125])) false ([123] ++ lit_name_sp sp s ++ [125]) = Ok items /\
+    po_result (soy_file inlen lexq unq items) = POk (NList pos nodes) st /\
+    Forall is_raw nodes /\ concat (map raw_text_of nodes) = s.
+Proof.
+  intros inlen lexq unq sp s Hsp Hcl.
+  destruct (C15_body_special_chars_spec inlen lexq unq [] [((lit_name_sp sp s, s), [])]) as (items & pos & nodes & st & A & B & C & D).
+  - split; [constructor|reflexivity].
+  - constructor; [|constructor]. split; [right; exists sp; split; [exact Hsp|split; [reflexivity|exact Hcl]]|]. split; [constructor|reflexivity].
+  - assert (E : body_src [] [((lit_name_sp sp s, s), [])] = [123] ++ lit_name_sp sp s ++ [125]) by reflexivity. rewrite E in A.
+    exists items, pos, nodes, st. split; [exact A|]. split; [exact B|]. split; [exact C|]. rewrite D. unfold body_out. cbn [rest_out].
+    change (normalize false false []) with (@nil N). cbn [app]. apply app_nil_r.
+Qed.
+Print Assumptions C15_literal_blanks_exact.
+Example C15_ex_literal_blanks :
+  [123] ++ lit_name_sp [32; 9] (b "{x} //") ++ [125] = b "{literal " ++ [9] ++ b "}{x} //{/literal}" /\
+  match lex_items is_letter_tbl is_digit_tbl (lex_budget (b "{literal " ++ [9] ++ b "}{x} //{/literal}")) false (b "{literal " ++ [9] ++ b "}{x} //{/literal}") with
+  | Ok items =>
+      match po_result (soy_file 0 (fun _ => []) (fun _ => None) items) with
+      | POk (NList _ nodes) _ => concat (map raw_text_of nodes) = b "{x} //"
+      | _ => False
+      end
+  | _ => False
+  end.
+Proof. split; vm_compute; reflexivity. Qed.
 
 (* ---- body_text_spec: bodies of text, comments, special-character commands and literal blocks ---- *)
 (* For EVERY body  T0 {c1} T1 {c2} ... {cn} Tn  (source: body_src) in which every ci is a special-character command
@@ -219,7 +251,7 @@ Print Assumptions C15_literal_exact.
    comments, every piece normalised separately with a comment as a flagged end and a tag / the end of the input
    as an unflagged one.  C15_body_text_spec_partial (no tags) and C15_body_special_chars_spec (no comments) are
    instances.  What remains outside a theorem: OTHER tags as neighbours of text (print, if, msg ...: their items
-   end a text run the same way, but their parse is not part of this statement) and "{literal }" with spaces. *)
+   end a text run the same way, but their parse is not part of this statement). *)
 Theorem C15_body_text_spec : forall inlen lexq unq T0 rest out,
   mix_body_ok T0 rest -> mix_body_out T0 rest = Some out ->
   exists items pos nodes st,
@@ -231,6 +263,52 @@ Proof.
   exact (body_mix_impl_spec is_letter_tbl is_digit_tbl Hl Hd El Ed inlen lexq unq).
 Qed.
 Print Assumptions C15_body_text_spec.
+
+(* ONE stretch between ANY two tags (print, if, msg, call ... whatever): the treatment of the text does not
+   depend on what its neighbours are.  Scanner: from lexText at the first byte of a stretch T of plain bytes that
+   is followed by tl (the "{" of any tag, or the end of the input), in ANY scanner state l (only the byte in front
+   of T matters: pwof, "the previous byte is white space or T begins the input" -- false behind the "}" of a tag,
+   pwof_after_brace), the scanner model sends the items its (text and comment items of T) and stops in
+   lexLeftDelim in front of tl (or sends EOF and is done).  Parser: itemList of ANY enclosing command (any
+   until-set without text / "{" / special-character / literal items -- every until-set of Model/Parser.v),
+   under any budgets, in ANY parser state that delivers its followed by an item nx that is neither text nor
+   comment ("{" or EOF), appends raw-text nodes whose texts, concatenated, are exactly the Spec's body_text of T
+   and stands in front of nx (behind the comments that follow the last text, which the next tag skips).
+   What this does NOT say: that the neighbouring tags parse -- that is C05 / C17's subject; with it, every stretch
+   of a template is covered whatever its neighbours are (C15_body_text_spec / C15_template_body_text_spec are the
+   whole-file statements for the tags whose parse is part of C15: special characters and literal blocks). *)
+Theorem C15_stretch_any_neighbours : forall inp l T tl out,
+  span inp l [] (T ++ tl) -> plain T -> tag_or_end tl ->
+  body_text (pwof 0 l) T = Some out -> (tl <> [] -> line_open MText (pwof 0 l) T = false) ->
+  exists k l' its st',
+    steps is_letter_tbl is_digit_tbl inp 0 k LText l = Ok (st', l') /\ l_dd l' = l_dd l /\
+    ((tl = [] /\ st' = LDone /\ exists e, t_typ e = itemEOF /\ l_out l' = e :: rev its ++ l_out l) \/
+     (tl <> [] /\ st' = LLeftDelim /\ l_out l' = rev its ++ l_out l /\ span inp l' [] tl)) /\
+    forall inlen lexq unq pexpr efuel pe w lf until,
+      one_of pit_Text until = false -> one_of pit_LeftDelim until = false ->
+      (forall t o, assoc t parser_special_chars = Some o -> one_of t until = false) -> one_of pit_Literal until = false ->
+      forall nx rest acc pos s, t_typ nx <> pit_Text -> t_typ nx <> pit_Comment ->
+      stream (c_p s) = its ++ nx :: rest -> inv (c_p s) -> (length its + 2 <= lf)%nat ->
+      exists j pre' nodes pos' s', Forall is_comment pre' /\ Forall is_raw nodes /\ concat (map raw_text_of nodes) = out /\
+        stream (c_p s') = pre' ++ nx :: rest /\ inv (c_p s') /\
+        forall f, item_list_loop inlen lexq unq pexpr efuel pe w lf (j + f) until pos acc s
+                = item_list_loop inlen lexq unq pexpr efuel pe w lf f until pos' (acc ++ nodes) s'.
+Proof.
+  destruct tables_ascii as [Hl Hd]. destruct tables_eof as [El Ed].
+  exact (stretch_any_neighbours is_letter_tbl is_digit_tbl Hl Hd El Ed).
+Qed.
+Print Assumptions C15_stretch_any_neighbours.
+(* non-vacuity: a stretch with a comment, at the start of the input, in front of {if $x}; its text is " ab " (the comment takes the line break with it) *)
+Example C15_ex_stretch_before_if :
+  let T := b " a //c" ++ [10] ++ b " b " in let tl := b "{if $x}y{/if}" in
+  span (T ++ tl) lex_init [] (T ++ tl) /\ plain T /\ tag_or_end tl /\
+  body_text (pwof 0 lex_init) T = Some (b " ab ") /\ line_open MText (pwof 0 lex_init) T = false.
+Proof.
+  cbv zeta. split; [unfold span, lex_init; cbn [l_start l_pos length]; repeat split; try lia|].
+  split; [apply Forall_forall; intros c Hc; assert (H : forallb (fun c => negb (c =? 0) && negb (c =? 123) && negb (c =? 125)) (b " a //c" ++ [10] ++ b " b ") = true) by (vm_compute; reflexivity);
+          rewrite forallb_forall in H; specialize (H c Hc); lia|].
+  split; [right; eexists; reflexivity|]. split; vm_compute; reflexivity.
+Qed.
 
 (* non-vacuity: comments before and after tags, "//" after "}" (text) and at the start of the input (comment), an
    empty comment, a literal block with comment openers and braces, an open "//" comment in the last stretch *)
@@ -260,7 +338,7 @@ Proof.
     repeat split; try (apply Hplain; vm_compute; reflexivity); try (intros _; vm_compute; reflexivity); try (intros H; discriminate H).
     - left. vm_compute. auto 12.
     - left. vm_compute. auto 12.
-    - right. split; [reflexivity|]. intros r. vm_compute. reflexivity. }
+    - apply cmd_ok_lit. intros r. vm_compute. reflexivity. }
   split; [vm_compute; reflexivity|]. split; [vm_compute; reflexivity|]. vm_compute. reflexivity.
 Qed.
 
@@ -327,7 +405,7 @@ Proof.
   { unfold mix_tpl_ok, c15_ex_tpl. cbn [fst snd]. split; [split; [apply Hplain; vm_compute; reflexivity|intros _; vm_compute; reflexivity]|].
     constructor; [|constructor; [|constructor]]; cbn [fst snd].
     - split; [left; vm_compute; auto 12|split; [apply Hplain; vm_compute; reflexivity|intros _; vm_compute; reflexivity]].
-    - split; [right; split; [reflexivity|intros r; vm_compute; reflexivity]|split; [apply Hplain; vm_compute; reflexivity|intros _; vm_compute; reflexivity]]. }
+    - split; [apply cmd_ok_lit; intros r; vm_compute; reflexivity|split; [apply Hplain; vm_compute; reflexivity|intros _; vm_compute; reflexivity]]. }
   split; [vm_compute; reflexivity|]. split; [vm_compute; reflexivity|]. vm_compute. split; reflexivity.
 Qed.
 
@@ -390,7 +468,72 @@ Proof.
   split; [split; [apply Hplain; vm_compute; reflexivity|vm_compute; reflexivity]|].
   split.
   { apply Forall_forall. intros sg Hin. unfold c15_ex_body in Hin. cbn [snd In] in Hin.
-    repeat (destruct Hin as [<-|Hin]; [split; [first [solve [left; vm_compute; auto 12] | right; split; [reflexivity|intros r; vm_compute; reflexivity]]|split; [apply Hplain; vm_compute; reflexivity|vm_compute; reflexivity]]|]).
+    repeat (destruct Hin as [<-|Hin]; [split; [first [solve [left; vm_compute; auto 12] | apply cmd_ok_lit; intros r; vm_compute; reflexivity]|split; [apply Hplain; vm_compute; reflexivity|vm_compute; reflexivity]]|]).
     contradiction. }
+  split; [vm_compute; reflexivity|]. split; [vm_compute; reflexivity|]. vm_compute. reflexivity.
+Qed.
+
+(* ---- body_text_spec with PRINT COMMANDS among the tags (Spec/TextTags.v) ----
+   T0 tag1 T1 ... tagn Tn where every tag is a special-character command, a literal block, or a print command
+   standing in the source as the text PrintNode.String() writes ({$x.k|d:1}); the print command n is well-formed
+   and lexically well-formed (wf_print, lex_ok_print: C17's hypotheses); the stretches are plain bytes that may
+   contain comments, under the Spec's condition that no "//" comment is open where a tag begins.  Scanner model
+   on the whole text, then the model of parse.SoyFile under its own budget (inlen = len(text); the nested
+   scanner is any scanner with well-formed items, never started on such a body): a list node whose children READ
+   (c15_view0, positions erased by cps_strip) as the Spec says: the text before the first print command, then per
+   print command its tree up to positions and the text up to the next one, where "text" is body_text of the
+   stretches (a print command is an unflagged end like every tag; "//" behind its "}" is text) and the
+   characters of the text tags in between.  So a print command is a neighbour of text like any other tag, and
+   the children are exactly raw-text nodes and these print nodes, in order.
+   Proof (Proofs/LexBodyTags.v, ParseBodyTags.v, BodyTagsMain.v): scanner per tag (lex_print for the expression);
+   parser on the items with the print commands' positions erased, where beginTag's implicit-print case is C17's
+   rule Tag_print at ONE budget for all levels: out of budget, or the Spec's reading; the totality of the entry
+   point (C05) excludes the first; the position independence of successful runs (cps_body) brings the result
+   back to the scanner's own items.  Other commands (if, for, msg, call ...) as neighbours: C15_stretch_any_neighbours. *)
+Theorem C15_body_text_print_tags_spec : forall lexq unq T0 rest out,
+  lexq_wf lexq -> c15_body_ok print_node T0 rest -> c15_lex_oks rest -> c15_body_out T0 rest = Some out ->
+  exists items pos nodes st,
+    lex_items is_letter_tbl is_digit_tbl (lex_budget (c15_body_src T0 rest)) false (c15_body_src T0 rest) = Ok items /\
+    po_result (soy_file (N.of_nat (length (c15_body_src T0 rest))) lexq unq items) = POk (NList pos nodes) st /\
+    c15_view0 (map cps_strip nodes) = out.
+Proof.
+  intros lexq unq T0 rest out Hq. destruct tables_ascii as [Hl Hd]. destruct tables_eof as [El Ed].
+  exact (body_tags_impl_spec is_letter_tbl is_digit_tbl Hl Hd El Ed lexq unq Hq T0 rest out).
+Qed.
+Print Assumptions C15_body_text_print_tags_spec.
+
+(* non-vacuity: text with comments around two print commands and a {sp}; "//" behind the "}" of a print command
+   is text; the reading is computed by the models and is the Spec's *)
+Definition c15_ex_tags : bstr * list c15_tseg :=
+  (b " a //c" ++ [10],
+   [(C15Print (NPrint 0 (NDataRef 0 (b "x") []) []) (b "{$x}"), b "//t" ++ [10] ++ b " b ");
+    (C15Text (b "sp", [32]), b "/*z*/ c" ++ [10]);
+    (C15Print (NPrint 0 (NDataRef 0 (b "y") [NAccKey 0 false (b "k")]) [NDirective 0 (b "d") [NInt 0 1]]) (b "{$y.k|d:1}"), b " e //open")]).
+Example C15_ex_body_print_tags :
+  c15_body_ok print_node (fst c15_ex_tags) (snd c15_ex_tags) /\ c15_lex_oks (snd c15_ex_tags) /\
+  c15_body_src (fst c15_ex_tags) (snd c15_ex_tags) = b " a //c" ++ [10] ++ b "{$x}//t" ++ [10] ++ b " b {sp}/*z*/ c" ++ [10] ++ b "{$y.k|d:1} e //open" /\
+  c15_body_out (fst c15_ex_tags) (snd c15_ex_tags) =
+    Some (b " a", [(NPrint 0 (NDataRef 0 (b "x") []) [], b "//t b  c");
+                   (NPrint 0 (NDataRef 0 (b "y") [NAccKey 0 false (b "k")]) [NDirective 0 (b "d") [NInt 0 1]], b " e")]) /\
+  match lex_items is_letter_tbl is_digit_tbl (lex_budget (c15_body_src (fst c15_ex_tags) (snd c15_ex_tags))) false (c15_body_src (fst c15_ex_tags) (snd c15_ex_tags)) with
+  | Ok items =>
+      match po_result (soy_file 100 (fun _ => []) (fun _ => None) items) with
+      | POk (NList _ nodes) _ => Some (c15_view0 (map cps_strip nodes)) = c15_body_out (fst c15_ex_tags) (snd c15_ex_tags)
+      | _ => False
+      end
+  | _ => False
+  end.
+Proof.
+  assert (Hplain : forall s : bstr, forallb (fun c => negb (c =? 0) && negb (c =? 123) && negb (c =? 125)) s = true ->
+                   Forall (fun c => c <> 0 /\ c <> 123 /\ c <> 125) s).
+  { intros s H. apply Forall_forall. intros c Hc. rewrite forallb_forall in H. specialize (H c Hc). lia. }
+  split.
+  { unfold c15_body_ok, c15_ex_tags. cbn [fst snd c15_rest_ok c15_tag_ok].
+    repeat split; try (apply Hplain; vm_compute; reflexivity); try (intros _; vm_compute; reflexivity); try (intros H; discriminate H);
+      try (vm_compute; reflexivity); try exact I.
+    left. vm_compute. auto 12. }
+  split.
+  { unfold c15_lex_oks, c15_ex_tags. cbn [snd]. repeat constructor; cbn [fst].
+    exists 100, []. repeat split; try reflexivity; lia. }
   split; [vm_compute; reflexivity|]. split; [vm_compute; reflexivity|]. vm_compute. reflexivity.
 Qed.
